@@ -5,7 +5,7 @@ from rules import common, c09
 
 CLAIMED = True
 TECHNIQUE = "static analysis over type-checked MIR: provenance of every update of the width counters (char_starts results / unit steps inside a lead-byte-filtered iteration, never byte lengths), normal form of the UTF-8 lead-byte predicate, writer-type composition table of Chunk::encode per (min,max,align) arm, must-follow of finish() after the chunk's encode, pad-before/after-content ordering in the two finish functions"
-LEVEL_TEXT = """Static decision of structural clauses: (A6) in the specification parser the fill character is stored without any test on its own value (so `<`, `>` and the syntax characters are legal fills), exactly when the following character is `<` or `>`, and `<`/`>` select left/right alignment; and of four writer clauses (the width law itself — cut position arithmetic, partial-write accounting, text arriving split inside a code point — is NOT claimed): (A1) every update of MaxWidthWriter.remaining, LeftAlignWriter.to_fill and RightAlignWriter.to_fill subtracts either a char_starts(..) result or 1 inside an iteration filtered by is_char_boundary — never a byte length; the cut index comes from the lead-byte-filtered enumerate, so the cut falls on a lead byte; (A2) is_char_boundary(b) is a recognised form of 'not a UTF-8 continuation byte'; char_starts counts exactly the bytes satisfying it; (A5) MaxWidthWriter::write swallows a buffer (returns Ok(buf.len()) without forwarding) only when the cut index computed by the lead-byte scan is 0; (A3) in Chunk::encode the writer per (min,max,align) arm is MaxWidthWriter alone, Left/RightAlignWriter alone, or Left/RightAlignWriter<MaxWidthWriter> (alignment outside, limit inside, so padding also passes the limit), with min feeding to_fill, max feeding remaining and params.fill feeding fill; (A4) on both alignment arms finish() follows the chunk's encode on every Ok path; RightAlignWriter::finish writes the fill before replaying the buffer, LeftAlignWriter::finish writes it after the content (the content has already been forwarded). (A6, cont.) the look-ahead deciding whether a character is a fill reads the character iterator, never a byte offset of the pattern; (A4, cont.) every non-error return of finish() has passed the head of the padding loop. (A10) in Parser::integer, followed with its flags, tuples and counters: after a digit was consumed Ok(None) is unreachable, and without one nothing else is. (A11) the only io::Write/encode::Write implementations in the pattern module are the three width writers; (A12) Parameters.min_width/max_width receive the number integer() returned with nothing applied, and the width writers receive those payloads as they are. (A3, cont.) the right-align writer's list of held-back output starts as a fresh empty list."""
+LEVEL_TEXT = """Static decision of structural clauses: (A6) in the specification parser the fill character is stored without any test on its own value (so `<`, `>` and the syntax characters are legal fills), exactly when the following character is `<` or `>`, and `<`/`>` select left/right alignment; and of four writer clauses (the width law itself — cut position arithmetic, partial-write accounting, text arriving split inside a code point — is NOT claimed): (A1) every update of MaxWidthWriter.remaining, LeftAlignWriter.to_fill and RightAlignWriter.to_fill subtracts either a char_starts(..) result or 1 inside an iteration filtered by is_char_boundary — never a byte length; the cut index comes from the lead-byte-filtered enumerate, so the cut falls on a lead byte; (A2) is_char_boundary(b) is a recognised form of 'not a UTF-8 continuation byte'; char_starts counts exactly the bytes satisfying it; (A5) MaxWidthWriter::write swallows a buffer (returns Ok(buf.len()) without forwarding) only when the cut index computed by the lead-byte scan is 0; (A3) in Chunk::encode the writer per (min,max,align) arm is MaxWidthWriter alone, Left/RightAlignWriter alone, or Left/RightAlignWriter<MaxWidthWriter> (alignment outside, limit inside, so padding also passes the limit), with min feeding to_fill, max feeding remaining and params.fill feeding fill; (A4) on both alignment arms finish() follows the chunk's encode on every Ok path; RightAlignWriter::finish writes the fill before replaying the buffer, LeftAlignWriter::finish writes it after the content (the content has already been forwarded). (A6, cont.) the look-ahead deciding whether a character is a fill reads the character iterator, never a byte offset of the pattern; (A4, cont.) every non-error return of finish() has passed the head of the padding loop. (A10) in Parser::integer, followed with its flags, tuples and counters: after a digit was consumed Ok(None) is unreachable, and without one nothing else is. (A11) the only io::Write/encode::Write implementations in the pattern module are the three width writers; (A12) Parameters.min_width/max_width receive the number integer() returned with nothing applied, and the width writers receive those payloads as they are. (A3, cont.) the right-align writer's list of held-back output starts as a fresh empty list. (A1, cont.) from the remaining == 0 edge of MaxWidthWriter::write no path leads back to the test: the first character past the budget ends the scan whatever it is."""
 LEVEL_NOTE = "Trusted: rustc MIR/callee resolution; io::Write contract of the inner writer; UTF-8 encoding facts (continuation bytes are 0x80..=0xBF)."
 EXPLANATION = """Decided: A1 character counting, A2 boundary predicate, A3 truncate-inside/pad-outside composition, A4 padding happens and on the right side. Undecided: the exact cut position arithmetic, accounting under partial writes, text split inside a code point across write calls."""
 DECIDED = ["A1", "A2", "A3", "A4", "A5", "A6 fill/alignment grammar of the format specification", "A7 charged characters are the consumed ones", "A8/A9 nested groups keep their own layer and parameters (C09.T12/T13 re-evaluated)"]
